@@ -3,6 +3,7 @@ package vapp
 import (
 	"encoding/json"
 	"fmt"
+	"github.com/tendermint/tendermint/crypto/tmhash"
 	"io/ioutil"
 	"os"
 	"path/filepath"
@@ -154,6 +155,9 @@ func (r *Replica) SaveBlock(b *BlockSpec) []byte {
 	blk.Header.Time = b.Time
 	blk.Header.LastBlockID = lastID
 	blk.Header.AppHash = b.AppHash
+	// Tendermint's Header.Hash() is nil without a validators hash; the harness does not track the
+	// set's merkle root, any fixed non-empty value gives every replica the same block hashes
+	blk.Header.ValidatorsHash = tmhash.Sum([]byte("verif/validators"))
 	if v, ok := r.G.Validators[b.Proposer]; ok {
 		blk.Header.ProposerAddress = v.Val.Priv.PubKey().Address()
 	}
